@@ -273,6 +273,20 @@ class Model:
             self._modfuncs[mod] = f
         return self._modfuncs[mod]
 
+    def ctor_only(self, m, depth=0):
+        """a private helper all of whose call sites are in the constructor of its class (or in such helpers)"""
+        if depth > 4 or not m.name.startswith('_'):
+            return False
+        sites = self.call_sites(m.qn)
+        if not sites:
+            return False
+        for fn, n in sites:
+            if fn.cls is not m.cls:
+                return False
+            if fn.name != '__init__' and not self.ctor_only(fn, depth + 1):
+                return False
+        return True
+
     def field_written_outside_init(self, cls, field):
         """some statement of the package other than <cls>.__init__ (and helpers only it calls) assigns, deletes or mutates in place an attribute named `field`"""
         MUT = {'append', 'extend', 'insert', 'pop', 'remove', 'clear', 'update', 'setdefault', 'add', 'discard', 'popitem', 'sort', 'reverse', 'appendleft', 'popleft'}
